@@ -14,12 +14,15 @@ observes the exit status and which PasteDeploy file was loaded.
 on the child's path: its ``loadapp(uri, ...)`` prints the URI it is asked to
 load and returns a trivial WSGI application.
 """
+import os as _os
+_TREE_UNDER_TEST = _os.environ.get("GVERIF_REPO") or _os.getcwd()   # the checkout under test (was the auditing agent's scratch worktree)
+
 import os
 import subprocess
 import sys
 import tempfile
 
-ROOT = "/tmp/wa_C16"
+ROOT = _TREE_UNDER_TEST
 
 
 def main():
